@@ -422,7 +422,7 @@ def random_spec(rng, tier='quick'):
             fn['link'] = rng.choice(EXTRA_LINKS) if rng.random() < 0.06 else rng.choice(LINKS)
             fn['form'] = rng.choice(FORMS)
         fns.append(fn)
-    return {'fns': fns, 'x': rng.choice([1, 2, 3, 4])}
+    return {'fns': fns, 'x': rng.choice([1, 2, 3, 4]), 'recursive': rng.random() >= 0.1}
 
 
 def build(spec, tag=''):
@@ -439,9 +439,12 @@ def build(spec, tag=''):
     # unit[i] = index of the conversion unit function f_i belongs to; nested defs belong to their parent
     decorators = {}
     recursive = set()
+    rec_opt = spec.get('recursive', True)
     for i, fn in enumerate(fns):
         name = 'f%d%s' % (i + 1, T)
         fn_conv[name] = conv
+        if not rec_opt:
+            conv = False          # convert(recursive=False): only the entry point is converted
         if i + 1 < d:
             link = fn['link']
             if link == 'dnc':
@@ -502,11 +505,11 @@ def build(spec, tag=''):
     if T:
         for m in ('call', 'scall'):
             src = src.replace('def %s(' % m, 'def %s%s(' % (m, T)).replace('.%s(' % m, '.%s%s(' % (m, T))
-    return {'src': src, 'entry': 'f1' + T, 'args': [spec['x']], 'fn_conv': fn_conv}
+    return {'src': src, 'recursive': rec_opt, 'entry': 'f1' + T, 'args': [spec['x']], 'fn_conv': fn_conv}
 
 
 def describe(spec):
     parts = []
     for fn in spec['fns']:
         parts.append('%s/%s/%s' % (fn.get('link', fn.get('kind')), fn['form'], '+'.join(fn['contexts']) or '-'))
-    return ' -> '.join(parts)
+    return ('' if spec.get('recursive', True) else 'nonrecursive: ') + ' -> '.join(parts)
